@@ -90,7 +90,8 @@ def decide(chk, jobs, obs, label):
     for j, o in zip(jobs, obs):
         if "skip" in o:
             continue
-        traces.append({"prog": j["prog"], "flow": o["flow"], "exc": o["exc"]})
+        traces.append({"prog": j["prog"], "flow": o["flow"], "exc": o["exc"], "reads": o.get("reads", []), "target": o.get("target", []),
+                       "reads_nometa": o.get("reads_nometa", o.get("reads", [])), "target_nometa": o.get("target_nometa", o.get("target", []))})
         keep.append((j, o))
     tcfg = os.path.join(tlc.SPEC, "Trace_Col.cfg")
     verdicts = {}
@@ -184,7 +185,7 @@ def run(chk):
         o2 = copy.deepcopy(o)
         o2["flow"][0]["t"] = "<default>.elsewhere"
         v = core.validate_traces(chk, "Trace_Col", os.path.join(tlc.SPEC, "Trace_Col.cfg"),
-                                 [{"prog": j["prog"], "flow": x["flow"], "exc": "none"} for x in (o1, o2)], "selftest")
+                                 [{"prog": j["prog"], "flow": x["flow"], "exc": "none", "reads": [], "target": [], "reads_nometa": [], "target_nometa": []} for x in (o1, o2)], "selftest")
         chk.cov["traces_validated_against_impl"] -= 2
         chk.self_test("a dropped pair / a re-attributed source is rejected", v[1][1] != "ok" and v[2][1] != "ok", "%s %s" % (v[1][1], v[2][1]))
     elif not chk.violations:
